@@ -8,6 +8,7 @@ import (
 	"math/rand"
 	"os"
 	"path/filepath"
+	"strings"
 	"sync"
 
 	"verifharness/pkg/emit"
@@ -30,6 +31,7 @@ type c06Result struct {
 	notes []string
 	skip  string
 	ops   []int // Storage calls made by each step
+	logs  [][]string
 }
 
 func c06CountOps(o c06Obs) int {
@@ -46,6 +48,43 @@ func c06CountOps(o c06Obs) int {
 // failing (obtain, forced renewal, renewal of a due certificate by manage; one and two issuers; fresh
 // and reused key), followed by a fault-free manage. The property's first clause binds under storage
 // errors too: a reported success must have left a complete, matching, reloadable bundle.
+// c06QuarantineBases: a certificate revoked for key compromise is replaced by manage; the marked step
+// is run with each Storage call of the quarantine (moveCompromisedPrivateKey: Load .key, Store
+// .key.compromised, Delete .key) failing - only those: a storage error inside the obtain that follows would
+// be retried with minutes of back-off (not modelled). Whatever fails there, nothing may be issued on the
+// compromised key.
+func c06QuarantineBases() (bases []c06In, target []int) {
+	dns := c06Subjects[0]
+	m := func(o ...c06Outcome) c06Hop { return c06Hop{Op: "manage", Orc: c06Orc(o...)} }
+	rev := c06Hop{Op: "revenv", I: 0, KC: true}
+	for _, reuse := range []bool{true, false} {
+		c1 := c06Cfg{N: 1, Reuse: reuse, KeyType: "p256"}
+		c2 := c06Cfg{N: 2, Reuse: reuse, KeyType: "p256"}
+		bases = append(bases,
+			c06In{Cfg: c1, Subj: dns, Steps: []c06Hop{m(c06Up(10, 0)), rev, m(c06Up(20, 0)), m(c06Up(30, 0))}},
+			c06In{Cfg: c1, Subj: dns, Steps: []c06Hop{m(c06Up(10, 1)), rev, m(c06Up(20, 0)), m(c06Up(30, 0))}},
+			c06In{Cfg: c2, Subj: dns, Steps: []c06Hop{m(c06Up(10, 0), c06Down), rev, m(c06Up(20, 0), c06Up(20, 0)), m(c06Up(30, 0), c06Up(30, 0))}},
+			c06In{Cfg: c2, Subj: dns, Steps: []c06Hop{m(c06Up(10, 0), c06Down), rev, m(c06Down, c06Up(20, 0)), m(c06Up(30, 0), c06Up(30, 0))}})
+		target = append(target, 2, 2, 2, 2)
+	}
+	return bases, target
+}
+
+// c06QuarantineOps: indices (among the Storage calls of the step) of the three calls of the quarantine.
+func c06QuarantineOps(log []string) []int {
+	n := 0
+	for _, l := range log {
+		if strings.HasPrefix(l, "Issue") || strings.HasPrefix(l, "GenKey") {
+			continue
+		}
+		if strings.HasPrefix(l, "Store file(") && strings.Contains(l, ",compromised)") {
+			return []int{n - 1, n, n + 1}
+		}
+		n++
+	}
+	return nil
+}
+
 func c06SweepBases() (bases []c06In, target []int) {
 	dns := c06Subjects[0]
 	m := func(o ...c06Outcome) c06Hop { return c06Hop{Op: "manage", Orc: c06Orc(o...)} }
@@ -167,6 +206,7 @@ func c06Exec(in c06In, origin string) (res c06Result) {
 			}
 		}
 		res.ops = append(res.ops, c06CountOps(o))
+		res.logs = append(res.logs, o.Log)
 		prevSt = o.stEnc
 		if in.Cfg.Rnd {
 			h.Orc.Perm = c06CompletePerm(in.Cfg.N, o)
@@ -447,6 +487,28 @@ func c06Run(tier string, seed int64, outdir string, replay string) error {
 			in.Steps = append([]c06Hop(nil), b.Steps...)
 			in.Steps[target[bi]].Fails = []int{k}
 			ins, origins = append(ins, in), append(origins, "error-sweep")
+		}
+	}
+	// storage errors inside the quarantine of a compromised key (forceRenew / moveCompromisedPrivateKey)
+	qbases, qtarget := c06QuarantineBases()
+	for bi, b := range qbases {
+		r0 := c06Exec(b, "quarantine-base")
+		if len(r0.logs) <= qtarget[bi] {
+			continue
+		}
+		ks := c06QuarantineOps(r0.logs[qtarget[bi]])
+		var plans [][]int
+		for _, k := range ks {
+			plans = append(plans, []int{k})
+		}
+		if len(ks) == 3 {
+			plans = append(plans, []int{ks[1], ks[2]}) // Store .compromised fails and so does the Delete on its error path
+		}
+		for _, f := range plans {
+			in := b
+			in.Steps = append([]c06Hop(nil), b.Steps...)
+			in.Steps[qtarget[bi]].Fails = f
+			ins, origins = append(ins, in), append(origins, "quarantine-errors")
 		}
 	}
 	n := 700
